@@ -28,6 +28,8 @@ type hsScript struct {
 	Kind     string   `json:"kind"`
 	At       int      `json:"at"`
 	Extras   []string `json:"extras"`
+	Stall    int      `json:"stall"`
+	Redial   bool     `json:"redial"`
 }
 type cerContent struct {
 	OH      string  `json:"oh"`
@@ -196,7 +198,31 @@ func runHandshake(id int, sc *hsScript, configured bool) hsLine {
 			diam.NewAVP(avp.VendorID, avp.Mbit, 0, datatype.Unsigned32(10415)),
 			diam.NewAVP(avp.AuthApplicationID, avp.Mbit, 0, datatype.Unsigned32(16777251))}})},
 	}
+	if sc.Redial {
+		// an earlier, successful dial of the same client from another local address
+		pc := memnet.NewConn()
+		pc.SetLocal("10.0.0.9:3868")
+		pc.OnWrite = func(k int, b []byte) memnet.WriteOutcome {
+			if msgs, _ := splitMsgs(b); len(msgs) == 1 && msgs[0].Cmd == 257 {
+				cea := ceaFor("ok", &msgs[0])
+				go pc.Feed(cea)
+			}
+			return memnet.WriteOutcome{N: -1}
+		}
+		if c0, err := cli.NewConn(pc, "10.0.0.2:3868"); err == nil && c0 != nil {
+			c0.Close()
+		} else {
+			l.Note += " first dial failed: " + errStr(err)
+		}
+		pc.Close()
+	}
 	mc := memnet.NewConn()
+	if sc.Stall > 0 {
+		mc.OnWrite = func(k int, b []byte) memnet.WriteOutcome {
+			time.Sleep(time.Duration(sc.Stall) * time.Millisecond) // the transport is slow to accept the bytes
+			return memnet.WriteOutcome{N: -1}
+		}
+	}
 	type dialRes struct {
 		c      diam.Conn
 		err    error
@@ -265,10 +291,14 @@ func runHandshake(id int, sc *hsScript, configured bool) hsLine {
 	// CER transmissions
 	msgs, _ = splitMsgs(mc.Out())
 	l.Obs.Identical = true
-	var stamps []time.Time
+	// spacing: from the completion of one transmission to the start of the next
+	var begins, ends []time.Time
 	for _, e := range mc.Events() {
-		if e.Kind == "write.end" && e.N > 0 {
-			stamps = append(stamps, e.T)
+		if e.Kind == "write.begin" {
+			begins = append(begins, e.T)
+		}
+		if e.Kind == "write.end" {
+			ends = append(ends, e.T)
 		}
 	}
 	for i, m := range msgs {
@@ -281,8 +311,8 @@ func runHandshake(id int, sc *hsScript, configured bool) hsLine {
 		}
 	}
 	l.Obs.MinGap = 1 << 30
-	for i := 1; i < len(stamps) && i < l.Obs.NCer; i++ {
-		if g := int(stamps[i].Sub(stamps[i-1]) / time.Millisecond); g < l.Obs.MinGap {
+	for i := 1; i < len(begins) && i < l.Obs.NCer && i-1 < len(ends); i++ {
+		if g := int(begins[i].Sub(ends[i-1]) / time.Millisecond); g < l.Obs.MinGap {
 			l.Obs.MinGap = g
 		}
 	}
